@@ -14,7 +14,7 @@ RULE = ("histories of 5-60 calls: add_rule (5 canned behaviours: constant, decli
         "of 1-5 items, index 0, gaps, duplicate indices, unknown family), interleaved with evaluations of matching and non-matching lines; "
         "oracles: (1) every return value against the specification; (2) at every checkpoint the probe lines evaluate exactly as on a FRESH "
         "calculator on which only the surviving non-declining rules and the accepted families were registered in the same order; (3) constant / "
-        "echo rules produce their token with fields bound by name; two rules with a match each are both applied in every registration order; (4) user families convert by the exact rational factor of their chain; tie: "
+        "echo rules produce their token with fields bound by name; two rules with a match each are both applied in every registration order; rules registered for tr / en whose patterns hold a word-group field or an operator word of one language: a line spelled like the pattern is rewritten, a line with the other language's group word is as without the rule (also as histories on the model); (4) user families convert by the exact rational factor of their chain; tie: "
         "the whole history is replayed on the Lean model (return values and every line result); non-trivial = history containing a deletion or a "
         "rejected call; distinct = distinct histories")
 ASSUMPTIONS = ["rule behaviours are the six canned RuleTrait implementations (constant, decline, echo a field, sum, money, accept-only-a-given-word) shared by the harness and the model (ApiKind)",
@@ -206,7 +206,8 @@ def run(ctx, model_ok):
     builtin = {f["name"] for f in cfg["types"]}
     two_rule_effects(ctx)
     multi_pattern_effects(ctx)
-    hist = curated_histories(rng) + [gen_history(rng, rng.randint(5, 60)) for _ in range(ctx.n(120, 2500))]
+    language_pattern_effects(ctx)
+    hist = curated_histories(rng) + language_histories() + [gen_history(rng, rng.randint(5, 60)) for _ in range(ctx.n(120, 2500))]
     now = C.run_impl([{"op": "now"}])[0]
     for hi, H in enumerate(hist):
         # --- implementation: the history with checkpoints -----------------------------------------
@@ -355,6 +356,59 @@ def multi_pattern_effects(ctx):
                 if got != want:
                     ctx.oracle_fail({"class": "effect:multi-pattern", "what": f"rule with patterns {pats} accepting only '{word}': '{text}' evaluates to {got if val is None or got is not None else val}, expected {want}",
                                      "ops": ops + [{"op": "reset"}]})
+
+
+# patterns with a language-dependent element (a word group, an operator word of one language) and a line spelled like the pattern
+LANG_PATTERNS = [
+    ("tr", "{GROUP:unit:hour_group} basi {NUMBER:rate}", "saat basi 50", "hour basi 50"),
+    ("tr", "{NUMBER:a} kere {NUMBER:b}", "3 kere 4", None),
+    ("tr", "{NUMBER:a} çarpı {NUMBER:b}", "3 çarpı 4", None),
+    ("tr", "topla {NUMBER:n}", "topla 5", None),
+    ("tr", "sum {NUMBER:n}", "sum 5", None),
+    ("tr", "{NUMBER:a} times {NUMBER:b}", "3 times 4", None),
+    ("tr", "{GROUP:w:week_group} no {NUMBER:n}", "hafta no 7", "week no 7"),
+    ("en", "{GROUP:unit:hour_group} rate {NUMBER:rate}", "hours rate 5", "saat rate 5"),
+    ("en", "{NUMBER:a} times {NUMBER:b}", "3 times 4", None),
+    ("en", "{NUMBER:a} kere {NUMBER:b}", "3 kere 4", None),
+    ("en", "topla {NUMBER:n}", "topla 5", None),
+    ("en", "{GROUP:w:week_group} no {NUMBER:n}", "weeks no 7", "hafta no 7"),
+]
+
+
+def language_pattern_effects(ctx):
+    """the patterns of a rule are patterns of the language the rule is registered for: a line of that language spelled like the
+    pattern is rewritten; a line using the word of the OTHER language's group is what it is without the rule"""
+    for (lang, pat, line, other) in LANG_PATTERNS:
+        rule = {"op": "rule_add", "lang": lang, "name": "r1", "kind": "const", "patterns": [pat], "v": 4242}
+        ops = [{"op": "reset"}, rule, {"op": "exec", "lang": lang, "text": line}]
+        if other:
+            ops += [{"op": "exec", "lang": lang, "text": other}, {"op": "reset"}, {"op": "exec", "lang": lang, "text": other}]
+        res = C.run_impl(ops + [{"op": "reset"}])
+        ctx.count("language-pattern-effects")
+        ctx.seen(("lang-pattern", lang, pat), True)
+        c = canon(res[2])
+        l = res[2]["lines"][0] if "lines" in res[2] and res[2]["lines"] else None
+        val = l.get("ok") if l and "ok" in l else None
+        if val is None or val.get("t") != "N" or O.f64(val["v"]) != 4242.0:
+            ctx.oracle_fail({"class": "effect:language-pattern", "what": f"rule registered for '{lang}' with pattern '{pat}' returning 4242: the {lang} line '{line}' evaluates to {c}",
+                             "ops": ops[:3] + [{"op": "reset"}]})
+        if other and canon(res[3]) != canon(res[5]):
+            ctx.oracle_fail({"class": "effect:language-pattern", "what": f"rule registered for '{lang}' with pattern '{pat}': the {lang} line '{other}' (word of the other language's group) evaluates to "
+                                                                    f"{canon(res[3])}, without the rule to {canon(res[5])}", "ops": ops[:2] + [ops[3], {"op": "reset"}]})
+
+
+def language_histories():
+    """the same registrations as histories (model tie: the model holds the patterns tokenised in the rule's language)"""
+    out = []
+    for lang in ("tr", "en"):
+        rules = [{"op": "rule_add", "lang": lang, "name": "l%d" % i, "kind": "const", "patterns": [pat], "v": 4000 + i}
+                 for i, (l, pat, _, _) in enumerate(LANG_PATTERNS) if l == lang]
+        lines = [x for (l, _, a, b) in LANG_PATTERNS for x in (a, b) if x]
+        ex = [{"op": "exec", "lang": lang, "text": t} for t in lines]
+        for r in rules:
+            out.append([r] + ex + [{"op": "rule_del", "lang": lang, "name": r["name"]}] + ex)
+        out.append(rules + ex)
+    return out
 
 
 def mult(code):
